@@ -875,7 +875,13 @@ def evaluate(ctx, cases):
             ctx.count(('skip', json.dumps(c, default=str)[:80]), False)
             continue
         nodes = replies[off:off + len(item[0])]
-        v, nontriv = item[1](nodes)
+        try:
+            v, nontriv = item[1](nodes)
+        except common.Broken:
+            raise
+        except Exception as e:   # noqa: BLE001  (an exception of the code under test is a verdict, not a crash)
+            v, nontriv = (f"the {c['kind']} case raised {type(e).__name__}: {str(e)[:160]} in the implementation where "
+                          f'the model gives a value'), False
         ctx.count(tuple(item[0]) or json.dumps(c, default=str), nontriv,
                   sample={k: (v2 if not isinstance(v2, (list, dict)) or len(str(v2)) < 120 else '...')
                           for k, v2 in c.items()})
